@@ -306,6 +306,8 @@ func runC03(c *Ctx, tier string) {
 	}
 	_ = sort.Strings
 	runFlattenedNullsCached(c, "C03-F1")
+	runSlotAlignedChildrenInheritNulls(c, "C03-E1")
+	runVcacheLoadsWhatItProjects(c, "C03-P2")
 }
 
 // subCallSeq lists, in source order, the receivers of calls to method `name` in fd's body;
